@@ -13,6 +13,7 @@
 import MdwModel.Theorems.CtxLayout
 import MdwModel.Model.Exception
 import MdwModel.Theorems.Image
+import MdwModel.Theorems.Refine
 namespace Mdw
 
 /-- a supplied ucontext / fpstate with values in their machine ranges -/
@@ -133,5 +134,14 @@ theorem C05_image_unlisted (d : DumpIn) (c : CrashInfo) (hc : d.crash = some c) 
     At (dumpBytes d) (acc4 d).pos d.standalone ∧
     At (dumpBytes d) ((acc4 d).pos + d.standalone.length)
       (serExc d.blamed c.signo c.code c.addr d.standalone.length (acc4 d).pos) := Image_exception_unlisted d c hc hno
+
+
+/-- **C05 (the writer refines the image model).** the builder operations of `exception_stream::write` produce exactly
+    the exception stage of the image model, for every buffer state and content -/
+theorem C05_refine_exception (d : DumpIn) (a : Acc) (pre : Bytes) (hpre : pre.length = a.base)
+    (hb : a.pos + d.standalone.length + 168 < 2 ^ 32) :
+    opException (a.bufOf pre) d.crash d.blamed (ctcOf d) d.standalone =
+      some ((stException d a).bufOf pre, ⟨ST_EXCEPTION, 168, a.pos + (if needsStandalone d then d.standalone.length else 0)⟩) :=
+  Refine_exception d a pre hpre hb
 
 end Mdw
